@@ -9,6 +9,8 @@ EXTENDS GroupBySem, IOUtils
 Trace == JsonDeserialize(IOEnv.TRACE_FILE)
 VARIABLE i
 SetOf(s) == {s[j] : j \in DOMAIN s}
+\* GB_MODE = "nosplit" / "nomerge" checks only one half of "exactly when" (used to classify a rejection)
+Mode == IF "GB_MODE" \in DOMAIN IOEnv THEN IOEnv.GB_MODE ELSE "both"
 GroupIdx(r, x) == CHOOSE g \in 1..Len(r.groups) : \E j \in 1..Len(r.groups[g]) : r.groups[g][j] = x
 Ok(r) == LET G == SetOf(r.G)  M == SetOf(r.M)  n == Len(r.ctxs) IN
   \* a partition of the filled values
@@ -17,7 +19,10 @@ Ok(r) == LET G == SetOf(r.G)  M == SetOf(r.M)  n == Len(r.ctxs) IN
   \* arrival order inside a group
   /\ \A g \in 1..Len(r.groups) : \A j \in 1..(Len(r.groups[g]) - 1) : r.groups[g][j] < r.groups[g][j + 1]
   \* same group exactly when the contexts agree on every selected path
-  /\ \A x, y \in 1..n : x < y => ((GroupIdx(r, x) = GroupIdx(r, y)) <=> SameGroup(r.ctxs[x], r.ctxs[y], G, M))
+  /\ \A x, y \in 1..n : x < y =>
+        LET together == GroupIdx(r, x) = GroupIdx(r, y)  same == SameGroup(r.ctxs[x], r.ctxs[y], G, M) IN
+        /\ Mode # "nomerge" => (same => together)       \* otherwise: split
+        /\ Mode # "nosplit" => (together => same)       \* otherwise: merged
 Init == i = 1
 Next == i <= Len(Trace) /\ Ok(Trace[i]) /\ i' = i + 1
 Spec == Init /\ [][Next]_i
